@@ -99,7 +99,13 @@ package metrics
 //@   ensures [fixed-names] G16setupNames[0] == "test" && G16setupNames[1] == "result" && G16iterNames[0] == "test" && G16iterNames[1] == "stage" && G16iterNames[2] == "result"
 //@   ensures [enabled] result != nil && result.IterationMetricsEnabled == iterationMetricsEnabled && result.Registry == registry
 //@
+//@ // every run starts from empty metrics: Reset clears the iteration vector AND the setup vector, whatever the
+//@ // configuration (the setup sample is recorded even when iteration metrics are disabled)
+//@ ghost var GMresets int
 //@ func (*Metrics).Reset
 //@   props C16 C06 C05
 //@   requires metrics != nil && metrics.Iteration != nil && metrics.Setup != nil
+//@   ghost at entry : GMresets = 0
+//@   ghost before call (*MetricVec).Reset : GMresets = GMresets + 1
 //@   modifies nothing
+//@   ensures [both-vectors-cleared] GMresets == 2
